@@ -279,6 +279,10 @@ def replay_walk(walk):
                     return issues
         last = e
     for o in ("values", "ndf", "cost", "gof", "chi2p", "total_cov", "member_results"):
-        if not check(len(walk["steps"]) - 1, o, last):
+        try:
+            if not check(len(walk["steps"]) - 1, o, last):
+                break
+        except Exception as exc:
+            viol(len(walk["steps"]) - 1, "reading %s of the multi-fit raised %s" % (o, type(exc).__name__), dict(exc=str(exc)[:300], history=[s["a"] for s in walk["steps"]]))
             break
     return issues
